@@ -52,14 +52,18 @@ Section Titles.
    An uninterpreted function here (its properties are the token layer's, C02); the harness
    supplies its values on the titles of a case. *)
 Variable esc : tok -> text.
+(* the key a title goes by in _title_block_map: the title itself in the writer as it was (exact
+   comparison), title.upper() after the repair (what the reader compares) *)
+Variable norm : text -> text.
 
 (* _get_block_title for one block whose label (or str(id(block))) is `l`: the title is escaped
-   FIRST and the escaped text is what is tested against, and stored in, _title_block_map
-   (`used`: the escaped titles handed out so far); each retry escapes "<label>.<idx>" *)
+   FIRST and the key of the escaped text is what is tested against, and stored in,
+   _title_block_map (`used`: the keys of the titles handed out so far); each retry escapes
+   "<label>.<idx>" *)
 Fixpoint uniq_title (fuel : nat) (l : tok) (used : list text) (idx : Z) (title : text) : res text :=
   match fuel with
   | O => OutOfFuel
-  | S f => if text_mem title used then uniq_title f l used (idx + 1) (esc (l ++ 46 :: render_nat idx))
+  | S f => if text_mem (norm title) used then uniq_title f l used (idx + 1) (esc (l ++ 46 :: render_nat idx))
            else Ok title
   end.
 
@@ -68,7 +72,7 @@ Fixpoint assign_titles (labels : list tok) (used : list text) : res (list text) 
   match labels with
   | [] => Ok []
   | l :: r => do t <- uniq_title (S (length used)) l used 1 (esc l) ;;
-              do ts <- assign_titles r (used ++ [t]) ;; Ok (t :: ts)
+              do ts <- assign_titles r (used ++ [norm t]) ;; Ok (t :: ts)
   end.
 End Titles.
 
@@ -85,6 +89,7 @@ Definition link_blocks (suppress_block_titles : option bool) (n_namespaces : Z) 
    _block_title_map, and read the other way round its _title_block_map. *)
 Section BlockTitle.
 Variable esc : tok -> text.
+Variable norm : text -> text.
 Variable idstr : nat -> text.          (* str(id(block)): an input *)
 
 (* the string a title is made from: the label, or str(id(block)) when the label is None or empty *)
@@ -100,15 +105,15 @@ Fixpoint title_of_block (given : list (nat * text)) (b : nat) : option text :=
   | (j, t) :: r => if Nat.eqb b j then Some t else title_of_block r b
   end.
 
-(* the writer's _title_block_map: the same pairs, keyed by the (escaped) title *)
-Definition title_block_map (given : list (nat * text)) : list (text * nat) := map (fun e => (snd e, fst e)) given.
+(* the writer's _title_block_map: the same pairs, keyed by the key of the (escaped) title *)
+Definition title_block_map (given : list (nat * text)) : list (text * nat) := map (fun e => (norm (snd e), fst e)) given.
 
 Definition get_block_title (fuel : nat) (linked : bool) (given : list (nat * text)) (b : nat) (label : option text)
   : res (list (nat * text) * option text) :=
   if negb linked then Ok (given, None)
   else match title_of_block given b with
        | Some t => Ok (given, Some t)
-       | None => do t <- uniq_title esc fuel (title_source b label) (map snd given) 1 (esc (title_source b label)) ;;
+       | None => do t <- uniq_title esc norm fuel (title_source b label) (map norm (map snd given)) 1 (esc (title_source b label)) ;;
                  Ok (given ++ [(b, t)], Some t)
        end.
 
